@@ -495,6 +495,8 @@ class Interp:
             if isinstance(base, str) and e.attr in ('endswith', 'startswith', 'strip', 'lstrip', 'rstrip', 'lower', 'upper', 'join', 'split', 'partition',
                                                      'format', 'splitlines', 'index', 'find', 'rsplit', 'rpartition', 'replace', 'count'):
                 return ('strmethod', base, e.attr)
+            if e.attr == '__class__' and isinstance(base, Ref) and h.objs[base.name]['__class__'] in h.module.classes:
+                return ('class', h.objs[base.name]['__class__'])
             v = h.getattr(base, e.attr, cls)
             if isinstance(v, Closure) and isinstance(v.node, ast.FunctionDef) and any(norm(d) == 'property' for d in v.node.decorator_list):
                 return self.call(v, [])
@@ -756,6 +758,8 @@ class Interp:
                 h.setattr(args[0], nm_, args[2], None)
                 return None
             if fn.id == 'hasattr':
+                if ('.' + nm_) in h.hooks:
+                    return True          # a method the scenario supplies
                 try:
                     h.getattr(args[0], nm_, None)
                     return True
@@ -1350,6 +1354,10 @@ class Interp:
                 k = self.ev(t.slice, env, cls)
                 h.touch(base.name)
                 h.items(base)[k] = value
+            elif isinstance(base, Ref) and h.objs[base.name]['__class__'] in h.module.classes \
+                    and h.module.method(h.objs[base.name]['__class__'], '__setitem__') is not None:
+                si = h.module.method(h.objs[base.name]['__class__'], '__setitem__')
+                self.call(Closure(si.node, {}, base, si.cls), [self.ev(t.slice, env, cls), value])
             else:
                 raise AnalysisError('heap model: store %s' % norm(t))
         elif isinstance(t, ast.Tuple):
